@@ -570,7 +570,7 @@ class C01(Spec):
     technique = ('Lean 4 proof: worklist model of GC_Mark_Item/GC_Recurse/GC_Mark_And_Recurse/GC_Mark/GC_Sweep is complete and sound for graph '
                  'reachability through every object representation; source-derived tables and fix-sensitive shapes regenerated each run; '
                  'white-box differential check of mark bits and swept sets against the real collector; shadow-graph oracle on the real GC_Mark')
-    level_text = ('Theorems C01_mark_complete / C01_collect_safe: for every registered heap (any finite graph: cycles, sharing, self references, chains of any '
+    level_text = ('Theorems C01_mark_complete / C01_sweep_safe (mark phase and unlink phase on clear mark bits): for every registered heap (any finite graph: cycles, sharing, self references, chains of any '
                   'length), every object representation (plain words, Ref, Box, Array, List, Table keys+values, Tree keys+values, heap Tuple, thread-local table; '
                   'containers with their CURRENT element / key / value types, which assign() between containers redefines) '
                   'and every root set of the three kinds, the model of the mark phase marks every object reachable from the roots, and the model of the sweep '
